@@ -321,6 +321,18 @@ def run(ctx):
             (is_call(init) and callee_name(init[1]) == "from_elem" and len(init[2]) == 2 and init[2][0] == ("int", 0) and uncast(init[2][1]) == dl)
         ctx.check("agreement", "wrapped-dek-length-from-first-field", okd, "the wrapped DEK is read with the first length field", "wrapped DEK buffer is %s" % fmt(init), dec.loc(reads[2][1]))
         nl = ("vfield", dev.call_term(reads[1][1]), "Continue", 0) if reads[1][1] not in std_len else dev.call_term(reads[1][1])
+        # the decoder accepts every wrapped-DEK length the encoder can write (any u16 the provider returns) as long as it fits the blob: a fixed cap on
+        # it refuses blobs that encrypt_seed produced with a provider whose wrapped keys are longer
+        rels_d = flow.rel_facts_at(DIN, reads[2][1])
+        dterm = uncast(("cast", "u16", "usize", dl))
+        # blobs encrypt_seed really emits: 4 + d + 12 + (32..64 + 16) bytes for a wrapped key of d >= 16 bytes
+        grid_d = [{"d": d, "L": L} for d in (16, 113, 184, 512, 513, 1024, 4096, 65535) for L in (d + 4 + 12 + 32 + 16, d + 4 + 12 + 64 + 16)]
+        mmd = acceptance_mismatch(rels_d, {"d": dterm, "L": BLOB}, grid_d, lambda d, L: True)
+        if mmd is not None and mmd.startswith("no branch fact"):
+            mmd = acceptance_mismatch(rels_d, {"d": ("cast", "u16", "usize", dl), "L": BLOB}, grid_d, lambda d, L: True)
+        ctx.check("acceptance-covers-production", "wrapped-dek-length-accepted-whenever-it-fits", mmd is None or mmd.startswith("no branch fact"),
+                  "a wrapped-DEK length is refused only when it does not fit the blob",
+                  "decrypt_seed refuses a wrapped-DEK length that encrypt_seed can write: %s" % mmd, dec.loc(reads[2][1]))
         b2 = reads[3][2][1]
         n_arr = array_len(dec.locals[b2[2]]["ty"]) if b2[0] == "obj" else None
         rels = flow.rel_facts_at(DIN, reads[3][1])
